@@ -392,6 +392,7 @@ package mqtt
 //@        seqEq(evBytes("(*BaseClient).write", 0, 1), seqOf(evRet[[]byte]("(*pktConnect).Pack", 0, 0))))
 //@   ensures[C06,C11,C16] reader: evCount("(*BaseClient).write") == 1 ==> evCount("go:(*BaseClient).Connect$1") == 1 &&
 //@        evIndex("go:(*BaseClient).Connect$1", 0) < evIndex("(*BaseClient).write", 0)
+//@   ensures[C17] handler_untouched: evCount("store:BaseClient.handler") == 0
 //@   ensures[C07] waiter: evCount("select") == 1 ==> fresh(evArg[chan *pktConnAck]("select", 0, 2)) && evIndex("(*BaseClient).write", 0) < evIndex("select", 0)
 //@   ensures[C07] registered_first: evCount("(*BaseClient).write") == 1 ==> evCount("store:signaller.chConnAck") == 1 &&
 //@        evIndex("store:signaller.chConnAck", 0) < evIndex("(*BaseClient).write", 0) && evArg[*signaller]("store:signaller.chConnAck", 0, 0) == c.sig &&
